@@ -6,6 +6,15 @@ props = [json.loads(l) for l in open(os.path.join(V, "properties.jsonl"))]
 
 # id -> (level, technique, level text, level note, design ref)
 CLAIMED = {
+ "C02": ("exploration", "deterministic simulation of operation histories with interleaved source edits, executed in lock-step on AssetCache (hot), AssetCache::without_hot_reloading and LocalAssetCache (directly and through AnyCache) against an executable map/load model",
+         "Seeded search over histories (1-40 operations over 6 ids x 20 asset types + 6 storable layouts: load, load_owned, get_cached, get_or_insert, contains, remove, take, clear, directory loads, recipe compounds with nested loads, failing and panicking loads) interleaved with source edits, with shard-count / hash-seed knobs; every return value and, periodically, the whole map contents are compared with the model on all three front-ends. Sampling, not proof.",
+         "Sequential histories (one simulated thread per front-end plus the idle reloader); races on one key are C01's subject.", "DESIGN.md §7 C02"),
+ "C03": ("exploration", "deterministic simulation of the faultable Source seam: per-extension states present / undecodable / absent / unreadable(kind), break-load-repair-load histories, nested compounds, against the executable load model",
+         "Seeded search over source states and break/repair histories for 9 leaf types (0-3 extensions, with/without default_value, empty-string extension, opted-out) and compounds nested to depth 4; oracles: value and error (id, class precedence Conversion > Io(other) > Io(NotFound) > no-default, wrapping under the compound's id) equal to the load model, bytes handed to the loader identical to the stored file of the first loadable extension, nothing cached after a failure, load_expect agrees, success after repair. Sampling, not proof.",
+         "Single simulated thread: the simulated part is the faultable I/O seam and the history, not interleaving.", "DESIGN.md §7 C03"),
+ "C11": ("exploration", "deterministic simulation of the faultable read_dir seam over generated trees (arbitrary listing order, same stem with several extensions, file and directory sharing an id, unreadable sub-directories), against an independent tree model",
+         "Seeded search over trees (depth <= 3), extension lists (one, several, overlapping, empty-string, Arc-wrapped), directories incl. the root and a missing one, pre-loaded subsets; oracles: Directory::ids sorted and duplicate-free and equal to the tree model, RecursiveDirectory::ids equal as a set to the union over readable sub-directories without duplicates, iter loads exactly the listed ids, iter_cached yields exactly the cached ones. Sampling, not proof.",
+         "Single simulated thread; archive-backed directories are exercised by C04's source comparison.", "DESIGN.md §7 C11"),
  "C07": ("exploration", "deterministic simulation: 1-4 reader threads (short reads, long-held guards, mapped guards, two-halves reads, copied(), watcher polling) against a stream of reloads, both RwLock preference policies and both lock front-ends",
          "Seeded search over interleavings of readers and the reloader around the per-entry RwLock; oracles: self-checking values (no mixture), value / reload id / liveness constant while a guard is alive, hot_reload returns only when the notified content is installed, every creation/drop performed by the reloader lies inside a hot_reload call (ledger sequence numbers), nothing moves at quiescence, watcher polling never reads an older value than the reported reload. Sampling, not proof.",
          "swap_any has no scheduling point inside, so a lock-bypassing reader cannot observe a half-written value under engine A (stated in the evidence).", "DESIGN.md §7 C07"),
